@@ -18,6 +18,7 @@ from typing import Any, Final, TextIO, TypeAlias
 from typing_extensions import Never
 
 from mypy import defaults
+from mypy.errorcodes import error_codes
 from mypy.options import PER_MODULE_OPTIONS, Options
 
 _CONFIG_VALUE_TYPES: TypeAlias = (
@@ -367,6 +368,8 @@ def parse_config_file(
                     file=stderr,
                 )
                 updates = {k: v for k, v in updates.items() if k in PER_MODULE_OPTIONS}
+            for message in drop_invalid_error_codes(updates):
+                print(prefix, message, file=stderr)
 
             globs = name[5:]
             for glob in globs.split(","):
@@ -598,6 +601,24 @@ def parse_section(
     return results, report_dirs
 
 
+def drop_invalid_error_codes(updates: dict[str, object]) -> list[str]:
+    """Remove unknown names from per-module or inline enable/disable_error_code settings.
+
+    These settings are applied with Options.apply_changes(), which expects valid error
+    code names (the global ones are validated by Options.process_error_codes()).
+    Return the error messages to report.
+    """
+    messages = []
+    for key in ("enable_error_code", "disable_error_code"):
+        codes = updates.get(key)
+        if isinstance(codes, list):
+            invalid = sorted({code for code in codes if code not in error_codes})
+            if invalid:
+                messages.append(f"Invalid error code(s): {', '.join(invalid)}")
+                updates[key] = [code for code in codes if code in error_codes]
+    return messages
+
+
 def convert_to_boolean(value: Any | None) -> bool:
     """Return a boolean value translating from other types if necessary."""
     if isinstance(value, bool):
@@ -692,6 +713,7 @@ def parse_mypy_comments(
             "", template, set_strict_flags, parser["dummy"], ini_config_types, stderr=stderr
         )
         errors.extend((lineno, x) for x in stderr.getvalue().strip().split("\n") if x)
+        errors.extend((lineno, x) for x in drop_invalid_error_codes(new_sections))
         if reports:
             errors.append((lineno, "Reports not supported in inline configuration"))
         if strict_found:
